@@ -1,3 +1,5 @@
+import DSV.Proofs.Skeleton
+import DSV.Generated.Skeleton
 import DSV.Proofs.TxOps
 import DSV.Proofs.Meta
 /-!
@@ -115,3 +117,16 @@ theorem last_delete_only_keeps_files :
     (partition [Op.deleteFiles [1], .appendFiles [7], .deleteFiles [2]]).deletes = [1, 2] := by decide
 
 end DSV.Props.C15tx
+
+/-! ## Tie to the current source -/
+namespace DSV.Src.C15
+open DSV.Skel DSV.Generated.Skel
+
+/-- **source_delete_snapshot_order** — the CURRENT `SnapshotManager.delete_snapshot`: one read of the current metadata,
+parents repointed to surviving ancestors, the current pointer moved to the most recent survivor, ONE metadata commit. -/
+theorem source_delete_snapshot_order :
+    project [("metadata_manager.refresh", "read"), ("repoint_parents_to_surviving_ancestors", "repoint"),
+             ("_most_recent_snapshot_id", "pickCurrent"), ("metadata_manager.commit", "commit")] smDeleteSnapshot
+      = ["read", "repoint", "pickCurrent", "commit"] := by decide
+
+end DSV.Src.C15
